@@ -218,6 +218,22 @@ def extra_verdicts(genfn, nq, nt):
     return run
 
 
+def rustc_parses(d):
+    """second opinion on an expansion syn cannot parse: does rustc's own parser accept it?"""
+    import subprocess
+    base = f'{vlib.WORK}/fuzz/second_opinion'
+    with open(base + '.cases', 'w') as f:
+        f.write(f"CASE x\nENTRY {d['entry']}\nARGS {d['args']}\nITEM {d['item']}\nEND\n")
+    r = subprocess.run([vlib.XCHECK, 'raw', base + '.cases'], capture_output=True, text=True)
+    text = r.stdout.strip()
+    if not text or text.startswith('<'):
+        return False
+    open(base + '.rs', 'w').write(text + '\n')
+    p = subprocess.run(['rustc', '+nightly', '-Zparse-crate-root-only', '--edition', '2021', '--crate-type', 'lib', base + '.rs'],
+                       capture_output=True, text=True)
+    return p.returncode == 0 and 'error' not in p.stderr
+
+
 def extra_fuzz(nq, nt):
     """C16 support: structure-aware mutation of every item of the test-suite / documentation plus generator output,
     through both entry points; panics, non-determinism and output that is not a sequence of items are violations"""
@@ -265,11 +281,20 @@ def extra_fuzz(nq, nt):
                         tot['kinds'][k] = tot['kinds'].get(k, 0) + v
                 else:
                     key = None
-                    if d['kind'] == 'parse' and re.search(r'\.\s*\$', d['item']):
-                        key = 'key-expression-with-dollar-as-member-name'
+                    if d['kind'] == 'parse' and re.search(r'\.\s*\$|\$\s*\{|\$\s*!|\$\s*::|::\s*\$|\$\s*\$', d['item']):
+                        key = 'key-expression-with-dollar-as-name'
+                    if d['kind'] == 'parse' and re.search(r'let\s*\$|\$\s*@|\$\s*:', d['item']):
+                        key = 'key-expression-with-dollar-as-name'
+                    if d['kind'] == 'parse' and re.search(r'default\s*\(\s*(\{|if\b|match\b|unsafe\b|loop\b|while\b|for\b)', d['item']):
+                        key = 'default-value-starting-with-a-block'
+                    if d['kind'] == 'parse' and 'reserved for future use' in d['detail']:
+                        key = 'where-clause-starting-with-angle-bracket'
                     if key and key in known:
                         if not any(k.startswith(key) for k in known_hit):
                             known_hit.append(f'{key} {known[key]}')
+                        continue
+                    if d['kind'] == 'parse' and rustc_parses(d):
+                        tot['syn_only_parse_failures'] = tot.get('syn_only_parse_failures', 0) + 1
                         continue
                     nrep += 1
                     if nrep <= 5:
